@@ -101,11 +101,11 @@ def run(ctx):
                 "V: random inventories x random chunk sizes. non-trivial = table has a duplicate key, a malformed line, '$' or a spaced name / file read in > 1 chunk")
     ctx.assumptions += ["streaming zlib decompression is a homomorphism over concatenation",
                         "a stream's read() returns b'' only at end of data",
-                        "generated inventory files end with a newline (as Sphinx writes them)"]
+                        ]
 
     # ---- T: reader under every read schedule ---------------------------------------
     mb = 6 if quick else 8
-    base = {**ABS, "MaxBody": mb, "DevDropCarry": False, "DevKeepLast": False}
+    base = {**ABS, "MaxBody": mb, "DevDropCarry": False, "DevKeepLast": False, "DevDropRest": False}
     cfg = _cfg(ctx, "ir_mc.cfg", base, invariants=["Correct", "ErrorIff", "Conserve"], properties=["Terminates"])
     r = tlc.run("InvReader", cfg, wd=ctx.wd, coverage=True, timeout=3000)
     tlc.expect_holds(r, "InvReader M |= S")
@@ -117,6 +117,10 @@ def run(ctx):
     rd = tlc.run("InvReader", cfg, wd=ctx.wd)
     tlc.expect_violation(rd, "Conserve", "InvReader Dev_DropCarry")
     ctx.add_tlc("InvReader_dev_dropcarry", rd, "expected counterexample found")
+    cfg = _cfg(ctx, "ir_dev2.cfg", {**base, "MaxBody": 2, "DevDropRest": True}, invariants=["Correct"])
+    rd = tlc.run("InvReader", cfg, wd=ctx.wd)
+    tlc.expect_violation(rd, "Correct", "InvReader Dev_DropRest")
+    ctx.add_tlc("InvReader_dev_droprest", rd, "expected counterexample found")
 
     # ---- T: entry table ---------------------------------------------------------------
     scopes = [("core", 3 if quick else 4), ("all", 2 if quick else 3)]
@@ -172,7 +176,7 @@ def run(ctx):
     tf = ctx.wd / "ir_traces.ndjson"
     tlc.write_ndjson(tf, traces)
     cfg = _cfg(ctx, "ir_trace.cfg", {"V1Line": "<-RealV1", "V2Line": "<-RealV2", "ZMark": "<-RealZ",
-                                     "MaxBody": 0, "DevDropCarry": False, "DevKeepLast": False},
+                                     "MaxBody": 0, "DevDropCarry": False, "DevKeepLast": False, "DevDropRest": False},
                spec="TraceSpec", invariants=["Verdict"])
     rv = tlc.run("InvReaderTrace", cfg, wd=ctx.wd, env={"TRACE_FILE": str(tf)}, timeout=3000, heap="12g")
     ctx.add_tlc("InvReaderTrace", rv)
@@ -253,7 +257,7 @@ def _ren(rec, variant):
             "res": [{"key": k(v["key"]), "loc": loc(v), "text": names.get(v["text"], v["text"])} for v in rec["res"]]}
 
 
-def _serialise(lines):
+def _serialise(lines, unterminated=False):
     """entry records of InvEntry.tla -> (v2 bytes, text lines)"""
     out = []
     for k, e in enumerate(lines, 1):
@@ -262,13 +266,15 @@ def _serialise(lines):
         loc = "" if e["eloc"] else "p.html#" + ("$" if e["dollar"] else f"q{k}")
         out.append(f"{e['name']} {tfield} {(-1) ** k * k} {loc} {e['disp']}\n")
     body = "".join(out)
+    if unterminated and body.endswith("\n"):
+        body = body[:-1]
     data = f"{H2}\n# Project: Pr oj\n# Version: 1.0\n{ZL}\n".encode() + zlib.compress(body.encode())
     return data, out
 
 
 def _replay_table(ctx, I, rec, idx, rnd, quick):
     rec = _ren(rec, idx % 3)
-    data, text = _serialise(rec["lines"])
+    data, text = _serialise(rec["lines"], unterminated=idx % 5 == 4)     # (the last line need not end with a newline)
     exp = [(v["key"][0], v["key"][1], v["key"][2], v["loc"], None if v["text"] == "NONE" else v["text"]) for v in rec["res"]]
     # oracle of the oracle: M must agree with Sphinx's own loader on these bytes
     sph = _sphinx_flat(data)
@@ -348,8 +354,7 @@ def _concretise_file(rec):
         if ln:
             name = f"n{j}"
             line = f"{name} mod p{j}.html" if not v2 else f"{name} py:func 1 p.html#$ -"
-            if nl or not v2:
-                names.append(name if (nl or not v2) else None)
+            names.append(name)
             btxt.append(line + ("\n" if nl else ""))
         else:
             btxt.append("\n" if nl else "")
@@ -460,6 +465,8 @@ def _random_load(ctx, I, rnd, t, long_header=False):
                 lines.append(f"{name.replace(' ', '_')} {rnd.choice(['mod', 'function', 'class'])} p{j}.html\n")
                 names.append(j)
     btext = "".join(lines)
+    if t % 4 == 3 and btext.endswith("\n"):
+        btext = btext[:-1]          # the last line need not be terminated
     if v2:
         plain = f"{H2}\n# Project: {proj}\n# Version: {vers}\n{ZL}\n"
         comp = zlib.compress(btext.encode(), rnd.choice([1, 6, 9]))
